@@ -90,8 +90,11 @@ def random_corpus(rng, n):
         if desc.printable(g) and rng.random() < 0.4:
             text, den = desc.print_desc(rng, g)
             c = den.code_of()
+            gc = g.code_of()
             define = ["desc 0 %d %s" % (strict, hx(text))]
-            toks = [c[t] for t in w]
+            # a character terminal that no rule uses is not part of the described grammar: its code is then simply
+            # an undeclared token code
+            toks = [c.get(t, gc[t]) for t in w]
         else:
             c = g.code_of()
             define = emit_define(g, 0, strict)
